@@ -927,7 +927,14 @@ func (e *evalContext) evaluateBuiltinOpen(x *expr, repr *openExpr) *value {
 		return v
 	}
 
-	output, err := provider.Open(e.ctx, inputs.export("").Value.(map[string]esc.Value), e.execContext)
+	inputsObject, ok := inputs.export("").Value.(map[string]esc.Value)
+	if !ok {
+		e.errorf(repr.syntax(), "provider inputs must be an object")
+		v.unknown = true
+		return v
+	}
+
+	output, err := provider.Open(e.ctx, inputsObject, e.execContext)
 	if err != nil {
 		e.errorf(repr.syntax(), "%s", err.Error())
 		v.unknown = true
